@@ -205,6 +205,38 @@ def _call(obj, method, prob, seed):
     return dg, before == after
 
 
+def _interrupted(obj, method, prob, seed, k):
+    """run obj.method(problem) and raise KeyboardInterrupt inside it when the k-th function of the library is entered;
+    -> True when the interrupt happened (False: the call made fewer internal calls and completed)"""
+    import sys
+    if len(prob) == 3 and prob[2] == "sparse":
+        args = [_sparse(prob[0]), q_from_float(prob[1])]
+    else:
+        args = [q_from_float(a) for a in prob]
+    root = os.path.join(os.path.realpath(REPO), "quatica")
+    cnt = [0]
+
+    def tracer(frame, event, arg):
+        if event == "call" and os.path.realpath(frame.f_code.co_filename).startswith(root):
+            cnt[0] += 1
+            if cnt[0] == k:
+                raise KeyboardInterrupt
+        return None
+    np.random.seed(seed)
+    old = sys.gettrace()
+    try:
+        with contextlib.redirect_stdout(io.StringIO()):
+            bound = getattr(obj, method)
+            sys.settrace(tracer)
+            try:
+                bound(*args)
+            finally:
+                sys.settrace(old)
+    except KeyboardInterrupt:
+        return True
+    return False
+
+
 def _history_job(args):
     ci, hists, thorough = args
     name, factory, kind, method = configs(thorough)[ci]
@@ -256,6 +288,32 @@ def _history_job(args):
         _call(d1, method, pool[p1 - 1], 1000 + p1)
         _call(d2, method, pool[p2 - 1], 1000 + p2)
         pats.append(("two-objects-used-alternately", _call(d1, method, pool[p2 - 1], 1000 + p2)[0], fresh_after(lambda o: None)))
+        # a call that FAILED is part of the history too: the caller catches the exception (or a notebook cell is
+        # interrupted) and goes on using the object
+        from ..qlib import sp_quat
+        rngp = np.random.default_rng(4242 + ci)
+        poisons = [("sparse-wide", lambda: (sp_quat(rngp.standard_normal((3, 9, 4))),)), ("none", lambda: (None,)),
+                   ("one-dimensional", lambda: (q_from_float(rngp.standard_normal((1, 5, 4)))[0],)),
+                   ("wide-1xn", lambda: (q_from_float(rngp.standard_normal((1, 9, 4))),)), ("empty", lambda: (q_from_float(np.zeros((0, 3, 4))),))]
+        e = factory()
+        raised = []
+        for pname, mk in poisons:
+            args_ = mk()
+            if method == "solve":
+                args_ = args_ + (q_from_float(rngp.standard_normal((3, 1, 4))),)
+            try:
+                with contextlib.redirect_stdout(io.StringIO()), warnings.catch_warnings():
+                    warnings.simplefilter("ignore")
+                    getattr(e, method)(*args_)
+            except Exception:
+                raised.append(pname)
+        pats.append(("after-calls-that-raised(" + ",".join(raised) + ")", _call(e, method, pool[p2 - 1], 1000 + p2)[0], fresh_after(lambda o: None)))
+        # ... and a call cut short by KeyboardInterrupt after its k-th internal Python call (deterministic: a trace function)
+        for kint in (3, 9, 27, 81):
+            f = factory()
+            hit = _interrupted(f, method, pool[(p1 if kint % 2 else len(pool)) - 1], 1000 + p1, kint)
+            if hit:
+                pats.append(("after-a-call-interrupted(at internal call %d)" % kint, _call(f, method, pool[p2 - 1], 1000 + p2)[0], fresh_after(lambda o: None)))
     except (ValueError, np.linalg.LinAlgError):
         pats = []
     for k, (pat, got, want) in enumerate(pats):
